@@ -34,13 +34,15 @@ def gen_def(rng, idx):
             start = L - rng.choice([1, 2, 3])          # last segment / last half segment
         else:
             start = rng.choice([0, 2, 6])
+        if rng.random() < 0.35:
+            start = min(L - 1, start + rng.choice([0.25, 0.5, 0.75, 2.5, 2.75]))     # fractional offsets
         r = rng.random()
         if r < 0.6:
-            dur = 4 * rng.randint(1, max(1, (L - start) // 4))
+            dur = 4 * rng.randint(1, max(1, int(L - start) // 4))
         elif r < 0.85:
-            dur = rng.randint(1, max(1, L - start))
+            dur = rng.randint(1, max(1, int(L - start)))
         else:
-            dur = L - start + rng.choice([1, 4, 9])    # reaches past the end of the source
+            dur = int(L - start) + rng.choice([1, 4, 9])    # reaches past the end of the source
         tracks = [(1, 'video', 'MAIN'), (2, 'audio', 'MAIN')] if rng.random() < 0.7 else [(1, 'video', 'MAIN')]
         periods.append(dict(pid='p%d' % i if rng.random() < 0.8 else 'p_%d' % i, stream=stream, start_s=start,
                             duration_s=max(1, dur), tracks=tracks))
@@ -172,7 +174,7 @@ def run(ctx):
                 nums = list(range(rep['start_number'], rep['start_number'] + admits + 1))
                 if ctx.quick() and len(nums) > 6:
                     nums = nums[:3] + nums[-3:]
-                mo = common.run_model(12, [[2, sc.model_rep(rep), p['start_s'] * 10**6, ref_ts, k] for k in nums])
+                mo = common.run_model(12, [[2, sc.model_rep(rep), int(round(p['start_s'] * 10**6)), ref_ts, k] for k in nums])
                 ri = c.get('/mps/vod/%s/%d/%s/init.%s' % (d['name'], ppk, name, ext))
                 if ri.status_code != 200:
                     ctx.violation('init segment of %s in period %s answers %d' % (name, p['pid'], ri.status_code), {'def': d})
@@ -237,7 +239,7 @@ def source_payloads(name, stream):
 
 def nearest_segment(rep, start_s):
     """1-based index of the segment whose start is nearest the offset (first with start + d/2 >= offset)"""
-    tc = start_s * rep['ts']
+    tc = int(round(start_s * 10**6)) * rep['ts'] // 10**6
     pos = 0
     for i, d in enumerate(rep['durs']):
         if pos + d // 2 >= tc:
